@@ -12,6 +12,7 @@ import BfeVerif.C42.Model
           m<i>.<pos>.<mm>  R_i with body byte (pos mod len) xor mm  (mm ≠ 0)
           x<i>.<d>         R_i with the length field increased by d and d junk bytes appended to the body
           k<i>.<d>         R_i with the length field decreased by d (the cut-off bytes follow on the wire)
+          s<i>.<L>         R_i with the length field set to min(L, len-1) (the cut-off bytes follow on the wire)
           y<i>             the same plaintext sealed by an unrelated connection (cross-connection splice)
           j<tt>.<vvvv>.<n> injected record: header + n junk bytes
           p<tt>.<vvvv>.<n>.<k>  header announcing n bytes followed by only k < n bytes (must be last)
@@ -19,7 +20,9 @@ import BfeVerif.C42.Model
         then EOF.
   result = `d=<delivered hex> e=<first error> q=<records accepted> a=<hex delivered by 4 further Reads> r=<their errors>`
 
-  The model is run on a *symbolic* byte stream: the body of R_i is `be64(i) ++ [typ] ++ plaintext`, junk is
+  The model is run on a *symbolic* byte stream: the body of R_i is `be64(i) ++ [typ] ++ plaintext` zero-padded to
+  the real body length of the suite, decrypt = the suite family's length pre-checks (`decryptFam`) in front of the ideal
+  functionality, junk is
   0xEE…, and decrypt is the ideal functionality `idealDec` for the client's history (the hypothesis
   of the theorems); the real bodies never reach the driver.
 -/
@@ -29,7 +32,28 @@ open BfeVerif.Proto
 def be64 (s : Nat) : Bytes :=
   [0, 0, 0, 0, UInt8.ofNat (s / 16777216 % 256), UInt8.ofNat (s / 65536 % 256), UInt8.ofNat (s / 256 % 256), UInt8.ofNat (s % 256)]
 
-def symEnc (s : Nat) (t : UInt8) (p : Bytes) : Bytes := be64 s ++ [t] ++ p
+/-- cipher family of a (suite, version) pair, as bfe's cipherSuites table has it -/
+def familyOf (suite : String) (vers : UInt8 × UInt8) : Family :=
+  let eiv (bs : Nat) : Nat := if vers.2.toNat ≥ 2 then bs else 0      -- explicit IV from TLS 1.1 (0x0302) on
+  if suite == "cca8" || suite == "cca9" then .aead 0 16
+  else if suite == "c02f" || suite == "c02b" then .aead 8 16
+  else if suite == "c011" || suite == "c007" || suite == "0005" then .stream 20
+  else if suite == "c012" || suite == "000a" then .cbc 8 20 (eiv 8)
+  else if suite == "e019" then .cbc 16 32 (eiv 16)
+  else .cbc 16 20 (eiv 16)
+
+/-- length of the real record body for a plaintext of `n` bytes (halfConn.encrypt / padToBlockSize) -/
+def realLen (fam : Family) (n : Nat) : Nat :=
+  match fam with
+  | .aead e o => e + n + o
+  | .stream m => n + m
+  | .cbc bs m e => e + (n + m) + (bs - (n + m) % bs)
+
+/-- symbolic body of the s-th record: `be64(s) ++ [typ] ++ plaintext`, zero-padded to the REAL body length
+    of the suite (always ≥ 9 + len), so that every length-dependent branch sees the real lengths -/
+def symEncF (fam : Family) (s : Nat) (t : UInt8) (p : Bytes) : Bytes :=
+  let b := be64 s ++ [t] ++ p
+  b ++ List.replicate (realLen fam p.length - b.length) 0
 
 def junk (n : Nat) : Bytes := List.replicate n 0xEE
 
@@ -57,14 +81,14 @@ def xorAt (l : Bytes) (i : Nat) (m : UInt8) : Bytes :=
   l.mapIdx fun k b => if k = i then b ^^^ m else b
 
 /-- one wire frame as symbolic bytes -/
-def frameBytes (sent : List (UInt8 × Bytes)) (vers : UInt8 × UInt8) (f : String) : Option Bytes :=
+def frameBytes (fam : Family) (sent : List (UInt8 × Bytes)) (vers : UInt8 × UInt8) (f : String) : Option Bytes :=
   match f.toList with
   | [] => none
   | c :: rest =>
     let args := (String.ofList rest).splitOn "."
     let rec_ (i : Nat) : Option (UInt8 × Bytes) := do
       let (t, p) ← sent[i]?
-      pure (t, symEnc i t p)
+      pure (t, symEncF fam i t p)
     match c, args with
     | 'o', [i] => do let (t, b) ← rec_ (← i.toNat?); pure (rawFrame t vers b)
     | 't', [i, tt] => do let (_, b) ← rec_ (← i.toNat?); pure (rawFrame (← hex1 tt) vers b)
@@ -77,6 +101,9 @@ def frameBytes (sent : List (UInt8 × Bytes)) (vers : UInt8 × UInt8) (f : Strin
         let (t, b) ← rec_ (← i.toNat?)
         let d := min (← d.toNat?) b.length
         pure (hdr t vers (b.length - d) ++ b)
+    | 's', [i, l] => do
+        let (t, b) ← rec_ (← i.toNat?)
+        pure (hdr t vers (min (← l.toNat?) (b.length - 1)) ++ b)
     | 'y', [i] => do let (t, b) ← rec_ (← i.toNat?); pure (rawFrame t vers (junk b.length))
     | 'j', [tt, vv, n] => do pure (rawFrame (← hex1 tt) (← hex2 vv) (junk (← n.toNat?)))
     | 'p', [tt, vv, n, k] => do pure (hdr (← hex1 tt) (← hex2 vv) (← n.toNat?) ++ junk (← k.toNat?))
@@ -123,7 +150,7 @@ def kindTag (frames : List String) (nsent : Nat) : String :=
         | 'o' :: r => match (String.ofList r).toNat? with
             | some j => if j < k then "replay" else "skip"
             | none => "bad"
-        | 't' :: _ => "type" | 'v' :: _ => "vers" | 'm' :: _ => "mod" | 'x' :: _ => "lenup" | 'k' :: _ => "lendown"
+        | 's' :: _ => "shrink" | 't' :: _ => "type" | 'v' :: _ => "vers" | 'm' :: _ => "mod" | 'x' :: _ => "lenup" | 'k' :: _ => "lendown"
         | 'y' :: _ => "splice" | 'j' :: _ => "inject" | 'p' :: _ => "partial" | 'z' :: _ => "stray"
         | _ => "bad"
   go frames 0
@@ -149,12 +176,13 @@ def run' (op impl : String) : Option Ans := do
   let sentS := splitList (← field kvs "sent")
   let wireS := splitList (← field kvs "wire")
   let sent ← optAll (sentS.map parseRec)
-  let frames ← optAll (wireS.map (frameBytes sent vers))
+  let fam := familyOf suite vers
+  let frames ← optAll (wireS.map (frameBytes fam sent vers))
   let w := frames.foldr (· ++ ·) []
-  let r := runStream (idealDec symEnc sent) vers w
+  let r := runStream (decryptFam fam (idealDec (symEncF fam) sent)) vers w
   -- four further Reads after the first error (none after io.ErrNoProgress, which is not sticky in Go)
   let more := if r.err == some Err.noprogress || r.err.isNone then (([] : Bytes), "-")
-    else let m := readMore (idealDec symEnc sent) vers 4 r; (m.1, ",".intercalate (m.2.map renderErr))
+    else let m := readMore (decryptFam fam (idealDec (symEncF fam) sent)) vers 4 r; (m.1, ",".intercalate (m.2.map renderErr))
   let model := "d=" ++ hexField r.out ++ " e=" ++ renderErr r.err ++ " q=" ++ toString r.seq ++
     " a=" ++ hexField more.1 ++ " r=" ++ more.2
   -- spec oracle on the implementation's result
